@@ -105,10 +105,14 @@ def main(argv):
             loss = fm(cs)
             loss.backward()
             for (i, xa, ya, shp, q) in twin_items:
-                q.grad = cs[i].flatten()[ranges[i][0] + xa : ranges[i][0] + ya].clone().view(shp)
+                want = cs[i].flatten()[ranges[i][0] + xa : ranges[i][0] + ya]
                 g = params[i].grad
-                if g is None or not torch.allclose(g.flatten()[xa:ya], q.grad.flatten(), rtol=1e-6, atol=0):
+                if g is None or not torch.allclose(g.flatten()[xa:ya], want, rtol=1e-5, atol=0):
                     out["violations"].append(f"harness: step {t + 1}: FSDP gradient of parameter {i} is not the expected one")
+                    continue
+                # the twin receives exactly the gradient shard FSDP produced (its reduce-scatter average of identical gradients
+                # is exact only for power-of-two world sizes): the optimizer under test and the twin see identical inputs
+                q.grad = g.flatten()[xa:ya].clone().view(shp)
             opt.step()
             if twin is not None:
                 twin.step()
